@@ -107,7 +107,10 @@ def monitor(s, case, infos):
         return f"initialize() raised {type(s.exc).__name__}: {s.exc}, which is not one of the library's exceptions"
     dur = s.t_end - s.t_start
     B = bound_us(s, infos)
-    if dur > B:
+    from ..common import gen_params as _gp
+
+    known = all(_gp().get(k, 0) > 0 for k in ("p_detect_base", "p_detect_per_cmd", "p_init_base", "p_init_per_cmd", "p_join_sender", "p_join_reader"))
+    if known and dur > B:
         return f"initialize() took {dur} us to fail, the bound is {B} us"
     left = [cid for cid, o in s.acc.items() if o is not None]
     if left:
